@@ -49,6 +49,7 @@ class Engine:
     def __init__(self):
         self.obligations = []
         self.unmodelled = []
+        self.dead_after_call = []
         self.assumptions = set()
         self.cur_key = None
         self.exc_sink = []
